@@ -8,6 +8,8 @@ Rules
   R7.3  rewriters: in every _rewrite_ser_data the removed children equal the inserted children, only data children
         (tx/cat/val/xVal/yVal/bubbleSize) are touched, and the inserters are the generated schema-positioned ones
   R7.4  series idx/order: writers take both from series.index; cloned series take max(existing over all plots)+1
+  R7.8  PlotTypeInspector.chart_type, interpreted over each writer's template, returns the chart type written (shared with
+        C20 R20.5)
   R7.7  per chart type, ChartXmlWriter's class and SeriesXmlRewriterFactory's class build series XML with the same series-writer
         class (shared with C08 R8.5)
   R7.6  date categories: epochs and the 1900 leap-year compatibility rule of Category._excel_date_number equal the
@@ -321,3 +323,9 @@ def run(ctx):
     from checks.c08 import writer_rewriter_rule
 
     writer_rewriter_rule(ctx, prog, "R7.7")
+
+    # -- R7.8 ------------------------------------------------------------------------------------
+    ctx.rule("R7.8", "chart.chart_type reads back the type each chart was written as (PlotTypeInspector over the writers' templates)")
+    from checks import c20_charts
+
+    c20_charts.run(ctx, prog, S, M, all_markers, "R7.8")
